@@ -232,10 +232,12 @@ def verify(kind, tasks, deps, an, adv_id, V, clock):
                 V('gantt/dates-wrong', f'task {t.id}: line has {e["start"]} - {e["end"]}, task {t.start} - {t.end}')
             if (e['state'] == 'milestone,') != bool(t.milestone):
                 V('gantt/milestone-flag-wrong', f'task {t.id}: state {e["state"]!r}, milestone={t.milestone}')
-            if multi and e['section'] != str(secs[e['id']]):
+            # grouped under its section: a task line below a section header must be below ITS section; when all tasks
+            # share one section the header may be omitted (as the code does today) or present
+            if e['section'] is not None and e['section'] != str(secs[e['id']]):
                 V('gantt/wrong-section', f'task {t.id} listed under section {e["section"]!r}, its section is {secs[e["id"]]!r}')
-            if not multi and e['section'] is not None:
-                V('gantt/unexpected-section', f'task {t.id} listed under a section although all tasks share one')
+            if e['section'] is None and multi:
+                V('gantt/wrong-section', f'task {t.id} is not under any section header although the chart has several sections')
     elif kind == 'network':
         if an['problems']:
             V('network/unparsable-line', f'lines that are not edges: {an["problems"][:2]}')
